@@ -420,7 +420,7 @@ func judgeGxz(c *hx.Ctx, r *gxzRun) {
 // C10: gxz never loses data.
 func C10(c *hx.Ctx) {
 	c.Level = "fault_enumeration"
-	c.Rule = "abstract scenarios = all 64 combinations of (alias, keep, force, target exists, input ok, stdout) with the fault-free outcome predicted by GxzGen; each realised for {compress, decompress} x {xz, lzma} (inputs: valid / corrupt / truncated; names with and without known suffix); the unmodified binary built from /repo runs under the ptrace stepper: once fault-free, then killed at the entry of every file-system system call j=1..N, then with every such call failing (ENOSPC/EIO/EACCES); after each run the real directory is abstracted and judged (data safe, no partial target, no temp file, exit status) and the system-call trace is validated by TLC against the GxzFs safety automaton; non-trivial = crash or fault point at a mutating call"
+	c.Rule = "abstract scenarios = all 64 combinations of (alias, keep, force, target exists, input ok, stdout) with the fault-free outcome predicted by GxzGen; each realised for {compress, decompress} x {xz, lzma} (inputs: valid / corrupt / truncated; names with and without known suffix); the unmodified binary built from /repo runs under the ptrace stepper: once fault-free, then killed at the entry of every file-system system call j=1..N, then with every such call failing (ENOSPC/EIO/EACCES); after each run the real directory is abstracted and judged (data safe, no partial target, no temp file, exit status) and the system-call trace is validated by TLC against the GxzFs safety automaton; non-trivial = crash or fault point at a mutating call; plus inputs whose error arrives with the last data, SIGINT/SIGPIPE at every file-system call, '-d -z', stale temporary files (regular / symbolic link)"
 	c.Assumptions = []string{"TLC (GxzFs, GxzGen, TraceGxzFs)", "ptrace stepper counts file-system calls globally across threads; a kill at syscall entry prevents the call", "the reference decoder judges 'complete output'"}
 	c.Exhaustive = true
 	c.DesignCheck(tlc.Opts{Module: "GxzProc", Cfg: "GxzFs_mc.cfg", Timeout: 3 * time.Minute}, nil)
